@@ -71,10 +71,10 @@ def rtime(rng, maxv=12, none_p=0.35, minv=0):
 
 class Gen:
     def __init__(self, rng, style_density=0.0, anim_density=0.04, display_p=0.08, ruby_p=0.15, region_ref_p=0.3,
-                 timing_p=0.4, own_begin_p=None, exclude_props=()):
+                 timing_p=0.4, own_begin_p=None, exclude_props=(), reveal_p=0.3):
         self.rng = rng; self.sd = style_density; self.ad = anim_density; self.dp = display_p
         self.ruby_p = ruby_p; self.rrp = region_ref_p; self.tp = timing_p; self.n = 0
-        self.exclude = set(exclude_props)
+        self.exclude = set(exclude_props); self.reveal_p = reveal_p
 
     def uid(self, prefix):
         self.n += 1; return f"{prefix}{self.n}"
@@ -85,7 +85,10 @@ class Gen:
             if p.__name__ in self.exclude: continue
             if p is SP.Display:
                 r = rng.random()
-                if r < self.dp: e.set_style(p, s.DisplayType.none)
+                if r < self.dp:
+                    e.set_style(p, s.DisplayType.none)
+                    if rng.random() < self.reveal_p:       # hidden by a specified value, revealed by a timed set step
+                        e.add_animation_step(m.DiscreteAnimationStep(p, rtime(rng, 4, 0.2), rtime(rng, 9, 0.3, 2), s.DisplayType.auto))
                 elif r < self.dp * 1.5: e.set_style(p, s.DisplayType.auto)
                 if rng.random() < self.dp * 1.5:
                     e.add_animation_step(m.DiscreteAnimationStep(p, rtime(rng, 6), rtime(rng, 8), rng.choice(list(s.DisplayType))))
@@ -176,6 +179,8 @@ class Gen:
             if p.__name__ in self.exclude: continue
             if rng.random() < (0.06 if self.sd > 0 else 0.01) and p is not SP.Position:
                 d.put_initial_value(p, rvalue(rng, p))
+        if getattr(self, "force_initial_direction", False) and "Direction" not in self.exclude:
+            d.put_initial_value(SP.Direction, rng.choice(list(s.DirectionType)))
         if nreg is None: nreg = rng.choice([0, 1, 1, 2, 3])
         for i in range(nreg):
             r = m.Region(f"r{i}", d)
@@ -183,6 +188,10 @@ class Gen:
             if rng.random() < 0.4: r.set_end(rtime(rng, 14))
             if rng.random() < 0.5: r.set_style(SP.ShowBackground, rng.choice(list(s.ShowBackgroundType)))
             self.deco(r, dens=self.sd * 2)
+            if d.has_initial_value(SP.Direction) and rng.random() < 0.85 and "WritingMode" not in self.exclude:
+                # direction special semantics against the document's initial value
+                r.set_style(SP.WritingMode, rng.choice([s.WritingModeType.lrtb, s.WritingModeType.rltb, s.WritingModeType.lrtb, s.WritingModeType.tbrl]))
+                if rng.random() < 0.8: r.set_style(SP.Direction, None)
             if rng.random() < 0.2: r.set_lang("de")
             d.put_region(r); self.regs.append(r)
         if rng.random() < 0.05: return d
